@@ -263,10 +263,15 @@ def run_mode(case):
             else:
                 world.net.begin_script([], {"k": "ok"})
             what = f"{fam}/{var}/{tr} prior group1={case['prior']} set_operation_mode({m.name}, {p}, {s})"
-            rec = await C.do_call(world, "set", lambda: inv.set_operation_mode(m, p, s))
+            # applications pass the mode as the enum member or as its plain integer value (both compare equal)
+            marg = int(m) if (p + s) % 3 == 1 else m
+            rec = await C.do_call(world, "set", lambda: inv.set_operation_mode(marg, p, s))
             world.net.begin_script([], {"k": "ok"})
             if rec["outcome"] != "result":
                 stats["vacuous"] += 1
+                if rec["outcome"] in ("failed", "maxretries") and case.get("reject") is None and case.get("lose") is None:
+                    add(f"C19:{m.name}:setter-failed-fault-free", f"{what} raised {rec.get('exc')!r} although the peer "
+                        f"answered every request with a conforming frame")
                 if rec["outcome"].startswith("other:") and rec["outcome"] != "other:ValueError":
                     add(f"C19:{m.name}:setter-exception:{rec['outcome'][6:]}", f"{what} raised {rec.get('exc')!r}")
                 continue
